@@ -641,12 +641,33 @@ class Project:
         if init is None:
             return out
         env = {p: ("param", p) for p in init.params[1:]}
-        self._ctor_walk(init, env, out, 0)
+        self._ctor_concrete = ci
+        try:
+            self._ctor_walk(init, env, out, 0)
+        finally:
+            self._ctor_concrete = None
         return out
 
     def _ctor_bind(self, expr, env):
         if isinstance(expr, ast.Name) and expr.id in env:
             return env[expr.id]
+        # self.X / Cls.X / type(self).X where X is a class-level constant of the class being constructed
+        # (looked up on the CONCRETE class: a subclass may override the constant of the base constructor)
+        if isinstance(expr, ast.Attribute) and getattr(self, "_ctor_concrete", None) is not None:
+            v = expr.value
+            is_self = isinstance(v, ast.Name) and v.id == "self" and "self" not in env
+            is_type = (isinstance(v, ast.Call) and isinstance(v.func, ast.Name) and v.func.id == "type" and len(v.args) == 1 and isinstance(v.args[0], ast.Name) and v.args[0].id == "self") \
+                or (isinstance(v, ast.Attribute) and v.attr == "__class__" and isinstance(v.value, ast.Name) and v.value.id == "self")
+            if is_self or is_type:
+                c, e2 = self.class_attr(self._ctor_concrete, expr.attr)
+                if e2 is not None:
+                    try:
+                        return ("const", const_eval(e2, {}))
+                    except AnalysisError:
+                        try:
+                            return ("const", ast.literal_eval(e2))
+                        except (ValueError, SyntaxError):
+                            pass
         # `a or b` / `a and b` / `x if c else y` over values known at this point (Python truthiness):
         # a parameter bound to a constant by a subclass constructor decides the branch; a free
         # parameter gives ('truthy', op, operands): the value then depends on the parameter's truth
